@@ -377,7 +377,11 @@ class _GlobSplit(Generic[AnyStr]):
             else:
                 gstar = b'**' if is_bytes else '**'
                 is_globstarlong = False
-            parts.insert(0, _GlobPart(gstar, True, True, is_globstarlong, True, False))
+            if not parts[0].is_globstar:
+                parts.insert(0, _GlobPart(gstar, True, True, is_globstarlong, True, False))
+            elif is_globstarlong and not parts[0].is_globstarlong:
+                # Consecutive `globstar` parts count as one (see `store`): the implicit `***` absorbs a leading `**`
+                parts[0] = _GlobPart(gstar, True, True, True, parts[0].dir_only, False)
 
         if self.no_abs and parts and parts[0].is_drive:
             raise ValueError('The pattern must be a relative path pattern')
